@@ -37,6 +37,20 @@ def generate(seed, tier):
 
 
 class H(Hooks):
+    def on_invalid(self, w, kind, thunk, desc):
+        """A request outside the valid ones may be refused; if it is accepted
+        the schedule it leaves behind must still be feasible (then the run
+        leaves C01's jurisdiction because the model cannot follow it)."""
+        try:
+            thunk()
+        except Exception:  # noqa: BLE001
+            return "rejected"
+        errs = check_feasible(w.jobs, w.real_machine_lists())
+        if errs:
+            w.ctx.fail("feasible_after_every_step", f"{desc} was accepted and left an infeasible schedule: " + "; ".join(errs[:3]))
+        from ..util import Foreign
+        raise Foreign("C09", f"invalid request accepted: {desc}")
+
     def after(self, w, i, kind, info):
         ctx = w.ctx
         lists = w.real_machine_lists()
